@@ -29,6 +29,9 @@ TraceReset ==
     /\ arg' = [o \in Ops |-> 0]
     /\ got' = [o \in Ops |-> NoOutcome]
     /\ res' = [o \in Ops |-> NoRes]
+    /\ snap' = [o \in Ops |-> 0]
+    /\ during' = [o \in Ops |-> {}]
+    /\ memo' = [v \in AllV |-> NoMemo]
     /\ UNCHANGED regVars
 
 TraceStart == IsEvent("Start") /\ Start(Line.op, Line.kind, Line.v)
